@@ -32,9 +32,11 @@ import (
 	"strings"
 	"sync"
 	"testing"
+	"time"
 
 	"github.com/nuts-foundation/go-did/did"
 	"github.com/nuts-foundation/nuts-node/http/client"
+	"github.com/nuts-foundation/nuts-node/vdr/resolver"
 )
 
 type vResp struct {
@@ -42,7 +44,8 @@ type vResp struct {
 	Ct   string `json:"ct"`   // hex
 	Mt   *string `json:"mt,omitempty"` // hex of mime.ParseMediaType(ct) (absent = error): library verdict handed to the model
 	Loc  string `json:"loc"`  // hex, "" = no Location header
-	Body string `json:"body"` // "doc:<hex id string>" | "badjson" | "big" | "empty"
+	Body string `json:"body"` // "doc:<hex id string>" | "raw:<hex JSON text>" | "badjson" | "big" | "empty"
+	Pid  *string `json:"pid,omitempty"` // raw bodies: hex of the id go-did's Document parser reads from the text (absent = it rejects the text): library verdict for the model
 }
 
 type vOp struct {
@@ -54,7 +57,59 @@ type vOp struct {
 	Resps  []vResp `json:"resps,omitempty"`
 	Via    string  `json:"via,omitempty"` // "" = fake transport, "sock" = real local servers
 	WF     bool    `json:"wf,omitempty"`  // generator claims: identifier is in the round-trip grammar
+	Pre       []vCUrl `json:"pre,omitempty"`       // cache: URLs other components of the node fetch through the SHARED caching transport before the resolution
+	Cacheable bool    `json:"cacheable,omitempty"` // cache: the servers mark their responses cacheable
 	Tag    string  `json:"tag,omitempty"` // generator family (statistics only; ignored by the model)
+}
+
+// vCUrl: a URL given by its components (all plain text)
+type vCUrl struct {
+	Scheme string `json:"scheme"`
+	User   string `json:"user,omitempty"`
+	Host   string `json:"host"`
+	Path   string `json:"path"`
+	Query  string `json:"query,omitempty"`
+	Frag   string `json:"frag,omitempty"`
+}
+
+func (u vCUrl) text() string {
+	s := u.Scheme + "://"
+	if u.User != "" {
+		s += u.User + "@"
+	}
+	s += u.Host + u.Path
+	if u.Query != "" {
+		s += "?" + u.Query
+	}
+	if u.Frag != "" {
+		s += "#" + u.Frag
+	}
+	return s
+}
+
+// vCacheInner: what sits below the real CachingRoundTripper; every origin serves a document that claims the DID under
+// resolution (a third party that wants to plant a document would do exactly that)
+type vCacheInner struct {
+	mu        sync.Mutex
+	reqs      []string
+	docID     string
+	cacheable bool
+}
+
+func (f *vCacheInner) RoundTrip(r *http.Request) (*http.Response, error) {
+	f.mu.Lock()
+	defer f.mu.Unlock()
+	f.reqs = append(f.reqs, hx(r.URL.String()))
+	h := http.Header{}
+	h.Set("Content-Type", "application/did+json")
+	if f.cacheable {
+		h.Set("Cache-Control", "public, max-age=600")
+	} else {
+		h.Set("Cache-Control", "no-store")
+	}
+	j, _ := json.Marshal(map[string]interface{}{"@context": "https://www.w3.org/ns/did/v1", "id": f.docID})
+	return &http.Response{StatusCode: 200, Status: "200 OK", Header: h, Body: io.NopCloser(strings.NewReader(string(j))), ContentLength: int64(len(j)),
+		Proto: "HTTP/1.1", ProtoMajor: 1, ProtoMinor: 1, Request: r}, nil
 }
 
 func hx(s string) string { return hex.EncodeToString([]byte(s)) }
@@ -143,6 +198,8 @@ func vBody(b string) (io.ReadCloser, int64) {
 	case strings.HasPrefix(b, "doc:"):
 		j, _ := json.Marshal(map[string]interface{}{"@context": "https://www.w3.org/ns/did/v1", "id": unhx(b[4:])})
 		data = string(j)
+	case strings.HasPrefix(b, "raw:"):
+		data = unhx(b[4:])
 	case b == "badjson":
 		data = "{not json"
 	case b == "big":
@@ -268,6 +325,15 @@ func (s *vSock) transport() *http.Transport {
 // vNormalize fills the library verdicts the model takes as data
 func vNormalize(op *vOp) {
 	for i := range op.Resps {
+		op.Resps[i].Pid = nil
+		if strings.HasPrefix(op.Resps[i].Body, "raw:") {
+			var doc did.Document
+			data := []byte(unhx(op.Resps[i].Body[4:]))
+			if resolver.RejectNullKeyEntries(data) == nil && doc.UnmarshalJSON(data) == nil {
+				h := hx(doc.ID.String())
+				op.Resps[i].Pid = &h
+			}
+		}
 		op.Resps[i].Mt = nil
 		if mt, _, err := mime.ParseMediaType(unhx(op.Resps[i].Ct)); err == nil {
 			h := hx(mt)
@@ -335,6 +401,31 @@ func vExec(op vOp, sock **vSock) (line string) {
 		return fmt.Sprintf("ip %v", net.ParseIP(unhx(op.S)) != nil)
 	case "wf":
 		return fmt.Sprintf("wf %v", vWF(unhx(op.M), unhx(op.ID)))
+	case "cache":
+		id := did.DID{Method: unhx(op.M), ID: unhx(op.ID)}
+		oldStrict, oldTr := client.StrictMode, client.DefaultCachingTransport
+		defer func() { client.StrictMode, client.DefaultCachingTransport = oldStrict, oldTr }()
+		client.StrictMode = op.Strict
+		inner := &vCacheInner{docID: id.String(), cacheable: op.Cacheable}
+		client.DefaultCachingTransport = client.NewCachingTransport(inner, 10*1024*1024) // the REAL shared cache, as http/engine.go installs it
+		third := client.NewWithCache(5 * time.Second)                                     // e.g. the status-list / OpenID4VP client
+		for _, u := range op.Pre {
+			if req, err := http.NewRequest(http.MethodGet, u.text(), nil); err == nil {
+				if resp, err := third.Do(req); err == nil {
+					resp.Body.Close()
+				}
+			}
+		}
+		out := ""
+		for k := 0; k < 2; k++ { // twice: the second resolution may be served from the cache entry of the first
+			doc, _, err := NewResolver().Resolve(id, nil)
+			if err != nil {
+				out += "err:" + vResErr(err) + ";"
+			} else {
+				out += "ok:" + hx(doc.ID.String()) + ";"
+			}
+		}
+		return fmt.Sprintf("cache inner=[%s] out=%s", strings.Join(inner.reqs, ","), out)
 	case "res":
 		id := did.DID{Method: unhx(op.M), ID: unhx(op.ID)}
 		oldStrict, oldTr := client.StrictMode, client.DefaultCachingTransport
@@ -594,6 +685,22 @@ func (g *vGen) scenario(didStr string, self string) []vResp {
 			return "doc:" + hx(didStr)
 		case x < 14:
 			return "doc:" + hx(g.pick([]string{"did:web:evil.example", didStr + ":x", strings.ToUpper(didStr), "did:nuts:abc", didStr + "#frag", didStr + "?", didStr + "/", didStr + "?&&", didStr + "/#", didStr + "/p", "", "notadid", "did:web:", strings.Replace(didStr, "%3A", "%3a", 1), strings.ToLower(didStr)}))
+		case x < 15:
+			// several id-like members: different case, duplicates, JSON-LD @id — in both orders; which one is "the" id must be
+			// decided by the parser that produces the returned document
+			other := g.pick([]string{"did:web:victim.example", "did:web:victim.example:alice", didStr + ":x"})
+			k1, k2 := g.pick([]string{"id", "ID", "Id", "iD", "@id"}), g.pick([]string{"id", "ID", "Id", "iD", "@id"})
+			a, b := didStr, other
+			if g.chance(0.5) {
+				a, b = b, a
+			}
+			ja, _ := json.Marshal(a)
+			jb, _ := json.Marshal(b)
+			txt := fmt.Sprintf(`{"@context":"https://www.w3.org/ns/did/v1","%s":%s,"service":[],"%s":%s}`, k1, ja, k2, jb)
+			if g.chance(0.2) {
+				txt = fmt.Sprintf(`{"%s":%s}`, k1, ja)
+			}
+			return "raw:" + hx(txt)
 		case x < 16:
 			return "badjson"
 		case x < 17:
@@ -754,6 +861,59 @@ func vGenerate(seed int64, thorough bool) []vOp {
 			self = u.Host
 		}
 		ops = append(ops, vOp{Op: "res", M: hx("web"), ID: hx(id), Strict: g.chance(0.7), Resps: g.scenario("did:web:"+id, self), Tag: tag})
+	}
+	// the shared HTTP cache: look-alike URLs fetched by other components before the did:web resolution
+	nCache := 400
+	if thorough {
+		nCache = 6000
+	}
+	for i := 0; i < nCache; i++ {
+		host := g.domain()
+		if g.chance(0.4) {
+			host += g.pick([]string{":443", ":8443"})
+		}
+		id := g.encHost(host, true)
+		path := "/.well-known/did.json"
+		if n := g.r.Intn(3); n > 0 {
+			path = ""
+			for k := 0; k < n; k++ {
+				sg := g.label(4)
+				id += ":" + sg
+				path += "/" + sg
+			}
+			path += "/did.json"
+		}
+		exact := vCUrl{Scheme: "https", Host: host, Path: path}
+		var pre []vCUrl
+		for k := g.r.Intn(4); k > 0; k-- {
+			u := exact
+			switch g.r.Intn(11) {
+			case 0:
+				u.Scheme = "http"
+			case 1:
+				u.Host = strings.Split(host, ":")[0] + ":8080"
+			case 2:
+				u.User = g.pick([]string{"user", "user:pw", "x"})
+			case 3:
+				u.Query = g.pick([]string{"x=1", "a=b&c=d", "cachebust"})
+			case 4:
+				u.Frag = "f"
+			case 5:
+				u.Host = strings.ToUpper(host)
+			case 6:
+				u.Scheme = "HTTPS"
+			case 7:
+				u.Path = path + "/"
+			case 8:
+				u.Path = strings.TrimSuffix(path, "/did.json") + "/DID.JSON"
+			case 9:
+				u.Host = "evil.example"
+			case 10:
+				// the very same URL: a legitimate earlier fetch
+			}
+			pre = append(pre, u)
+		}
+		ops = append(ops, vOp{Op: "cache", M: hx("web"), ID: hx(id), Strict: g.chance(0.5), Pre: pre, Cacheable: g.chance(0.85), Tag: "shared-cache"})
 	}
 	// real sockets: the three local origins
 	for i := 0; i < nSock; i++ {
